@@ -1187,6 +1187,25 @@ def replay(ctx, path):
             if sp: print("edited document:\n" + sp)
         print(f"actions checked: {stats['actions']}, ok: {stats['actions_ok']}")
         return 1 if hits else 0
+    if rp.get("protocol") == "iedits":
+        stats = new_stats()
+        check_import_tie(ctx, DocRunner(ctx, stats), [(rp["old_text"], rp["new_text"])], "replay", stats)
+        print("old text:\n" + rp["old_text"] + "\nnew text:\n" + rp["new_text"])
+        print(f"import pairs with equal model/implementation edits: {stats['tie_import_ok']}/{stats['tie_import_pairs']}")
+        return 1 if ctx.violations else 0
+    if rp.get("protocol") == "aimp":
+        stats = new_stats()
+        case = {"lines": [l for l in rp["ops"] if not l.startswith(("qa ", "qc "))], "doc": rp["doc"], "need": "?",
+                "exporters": [], "meta": {"history": "replay", "imports": -1}}
+        r = DocRunner(ctx, stats)
+        r.fail = lambda cc, aa, bb, ll, pp=None: None
+        # re-issue the recorded query
+        r.ctx = ctx
+        case["forced_queries"] = [rp["query"]]
+        r.run_cases([case], "replay")
+        print("document:\n" + rp["doc"])
+        print(f"auto-import actions with equal model/implementation edits: {stats['tie_aimp_ok']}/{stats['tie_aimp']}")
+        return 1 if ctx.violations else 0
     if rp.get("protocol") == "mdiff":
         stats = new_stats()
         r = DocRunner(ctx, stats)
